@@ -9,6 +9,10 @@
 import DuckModel.Lemmas.ScriptRunLemmas
 import DuckModel.Lemmas.ScriptLoopConcat
 import DuckModel.Lemmas.ScriptLoopSetFromArray
+import DuckModel.Lemmas.ScriptLoopMapContainsValueFinal
+import DuckModel.Lemmas.ScriptLoopArrayConcatFinal
+import DuckModel.Lemmas.ScriptLoopArrayContainsCall
+import DuckModel.Lemmas.ScriptLoopArrayJoinFinal
 
 namespace Duck
 open Duck.Alias Duck.Coll Duck.ScriptRun Duck.Spec
@@ -127,8 +131,131 @@ theorem C07_script_set_from_array_terminates (depth fuel : Nat) (args : List Str
     | none => trivial
     | some v => cases v <;> trivial
 
+/-- `map_contains_value`: `6·n + 16` instructions for a map of `n` entries (a miss costs 6
+    instructions per key, a hit ends the loop early through the released key array); the nested
+    `map_is_empty` and the condition evaluators run inside single instructions with the same
+    budget.  Every budget of at least the bound gives the run the bound gives. -/
+theorem C07_script_map_contains_value_terminates (depth fuel : Nat) (a v : Str) (rest : List Str) (vars : Vars) (st : ScriptSt)
+    (hfree : tget st.coll.tbl (Coll.handleName st.coll.next) = none)
+    (hfree1 : tget st.coll.tbl (Coll.handleName (st.coll.next + 1)) = none)
+    (hfree2 : tget st.coll.tbl (Coll.handleName (st.coll.next + 2)) = none)
+    (hok : ArgOK a = true)
+    (hstale : NoStaleFor "scope::map_contains_value".toList st.forStack)
+    (hc4 : IfCacheOK st.ifMeta "scope::map_contains_value::4".toList 16)
+    (hc12 : IfCacheOK st.ifMeta "scope::map_contains_value::12".toList 14)
+    (hc8 : CacheOK st.forMeta "scope::map_contains_value::8".toList 15)
+    (hkh : tget st.coll.tbl ((vars.get "scope::map_contains_value::key_array_handle".toList).getD []) = none)
+    (hfuel : 6 * mapLen st.coll.tbl a + 16 ≤ fuel) :
+    runScriptCmdF (depth + 2) fuel "map_contains_value".toList (a :: v :: rest) vars st =
+      runScriptCmdF (depth + 2) (6 * mapLen st.coll.tbl a + 16) "map_contains_value".toList (a :: v :: rest) vars st ∧
+    IsAnswer (runScriptCmdF (depth + 2) fuel "map_contains_value".toList (a :: v :: rest) vars st).1 := by
+  have hkeys := mcv_keys
+  obtain ⟨k, rfl⟩ : ∃ k, fuel = k + 6 * mapLen st.coll.tbl a + 16 := ⟨fuel - (6 * mapLen st.coll.tbl a + 16), by omega⟩
+  obtain ⟨r, hrun, hpost⟩ := mcv_call depth a v rest vars st hfree hfree1 hfree2 hok hstale
+    (by rw [hkeys.1]; exact hc4) (by rw [hkeys.2.1]; exact hc12) (by rw [hkeys.2.2]; exact hc8) hkh
+  have h0 := hrun 0
+  rw [show 0 + 6 * mapLen st.coll.tbl a + 16 = 6 * mapLen st.coll.tbl a + 16 by omega] at h0
+  rw [hrun k, h0]
+  refine ⟨rfl, ?_⟩
+  rw [hpost.res]
+  unfold mcvRes
+  cases tget st.coll.tbl a with
+  | none => trivial
+  | some w => cases w <;> trivial
+
+/-- `array_concat` on live arrays: `6·n + 3·c + 9` instructions for `n` arguments with `c` cells
+    in total (written `3·n + acCost + 9`, `acCost_eq`: `acCost = 3·c + 3·n`) - LINEAR in the total
+    length although the loops are nested -/
+theorem C07_script_array_concat_terminates (depth fuel : Nat) (a : Str) (rest : List Str) (vars : Vars) (st : ScriptSt)
+    (hfree : tget st.coll.tbl (Coll.handleName st.coll.next) = none)
+    (hfree1 : tget st.coll.tbl (Coll.handleName (st.coll.next + 1)) = none)
+    (hlive : ∀ x ∈ a :: rest, ∃ l, tget st.coll.tbl x = some (.list l))
+    (hok : ∀ x ∈ a :: rest, ArgOK x = true)
+    (hstale : NoStaleFor "scope::array_concat".toList st.forStack)
+    (hc1 : CacheOK st.forMeta "scope::array_concat::1".toList 5)
+    (hc2 : IfCacheOK st.ifMeta "scope::array_concat::2".toList 4)
+    (hc9 : CacheOK st.forMeta "scope::array_concat::9".toList 13)
+    (hc10 : CacheOK st.forMeta "scope::array_concat::10".toList 12)
+    (hfuel : 6 * (a :: rest).length + 3 * (acCells st.coll.tbl (a :: rest)).length + 9 ≤ fuel) :
+    runScriptCmdF (depth + 2) fuel "array_concat".toList (a :: rest) vars st =
+      runScriptCmdF (depth + 2) (6 * (a :: rest).length + 3 * (acCells st.coll.tbl (a :: rest)).length + 9)
+        "array_concat".toList (a :: rest) vars st ∧
+    IsAnswer (runScriptCmdF (depth + 2) fuel "array_concat".toList (a :: rest) vars st).1 := by
+  have hkeys := ac_keys
+  have hcost := acCost_eq st.coll.tbl (a :: rest)
+  obtain ⟨k, rfl⟩ : ∃ k, fuel = k + 3 * (a :: rest).length + acCost st.coll.tbl (a :: rest) + 9 :=
+    ⟨fuel - (3 * (a :: rest).length + acCost st.coll.tbl (a :: rest) + 9), by omega⟩
+  obtain ⟨r, hrun, hpost⟩ := ac_call depth a rest vars st hfree hfree1 (fun x hx => ⟨hok x hx, hlive x hx⟩) hstale
+    (by rw [hkeys.1]; exact hc1) (by rw [hkeys.2.1]; exact hc2) (by rw [hkeys.2.2.1]; exact hc9)
+    (by rw [hkeys.2.2.2]; exact hc10)
+  have h0 := hrun 0
+  rw [show 0 + 3 * (a :: rest).length + acCost st.coll.tbl (a :: rest) + 9 =
+    6 * (a :: rest).length + 3 * (acCells st.coll.tbl (a :: rest)).length + 9 by omega] at h0
+  rw [hrun k, h0]
+  refine ⟨rfl, ?_⟩
+  rw [hpost.res]; trivial
+
+/-- `array_contains`: `7·n + 12` instructions for an array of `n` cells (a miss costs 7
+    instructions per cell; a hit ends the loop early through the unset handle variable) -/
+theorem C07_script_array_contains_terminates (depth fuel : Nat) (a v : Str) (rest : List Str) (vars : Vars) (st : ScriptSt)
+    (hfree : tget st.coll.tbl (Coll.handleName st.coll.next) = none)
+    (hne : a ≠ Coll.handleName st.coll.next)
+    (hstale : NoStaleFor "scope::array_contains".toList st.forStack)
+    (hc5 : CacheOK st.forMeta "scope::array_contains::5".toList 14)
+    (hc8 : IfCacheOK st.ifMeta "scope::array_contains::8".toList 11)
+    (hE : ∀ l, tget st.coll.tbl [] ≠ some (.list l))
+    (hlen : arrLen st.coll.tbl a < Calc.two53)
+    (hfuel : 7 * arrLen st.coll.tbl a + 12 ≤ fuel) :
+    runScriptCmdF (depth + 1) fuel "array_contains".toList (a :: v :: rest) vars st =
+      runScriptCmdF (depth + 1) (7 * arrLen st.coll.tbl a + 12) "array_contains".toList (a :: v :: rest) vars st ∧
+    IsAnswer (runScriptCmdF (depth + 1) fuel "array_contains".toList (a :: v :: rest) vars st).1 := by
+  obtain ⟨k, rfl⟩ : ∃ k, fuel = k + 7 * arrLen st.coll.tbl a + 12 := ⟨fuel - (7 * arrLen st.coll.tbl a + 12), by omega⟩
+  obtain ⟨r, hrun, hpost⟩ := kc_call depth a v rest vars st hfree hne hstale
+    (by rw [kc_keys.1]; exact hc5) (by rw [kc_keys.2]; exact hc8) hE hlen
+  have h0 := hrun 0
+  rw [show 0 + 7 * arrLen st.coll.tbl a + 12 = 7 * arrLen st.coll.tbl a + 12 by omega] at h0
+  rw [hrun k, h0]
+  refine ⟨rfl, ?_⟩
+  rw [hpost.res]; trivial
+
+/-- `array_join` (handle and separator of the class `ArgOK`): `3·n + 16` instructions for an
+    array of `n` cells; the nested `array_is_empty`, the condition evaluators, `strlen`, `calc`,
+    `substring` run inside single instructions -/
+theorem C07_script_array_join_terminates (depth fuel : Nat) (a sep : Str) (rest : List Str) (vars : Vars) (st : ScriptSt)
+    (hfree : tget st.coll.tbl (Coll.handleName st.coll.next) = none)
+    (hfree1 : tget st.coll.tbl (Coll.handleName (st.coll.next + 1)) = none)
+    (hne : a ≠ Coll.handleName st.coll.next)
+    (hok : ArgOK a = true) (hsepOK : ArgOK sep = true)
+    (hstale : NoStaleFor "scope::array_join".toList st.forStack)
+    (hc1 : IfCacheOK st.ifMeta "scope::array_join::1".toList 3)
+    (hc5 : IfCacheOK st.ifMeta "scope::array_join::5".toList 16)
+    (hc10 : IfCacheOK st.ifMeta "scope::array_join::10".toList 15)
+    (hc6 : CacheOK st.forMeta "scope::array_join::6".toList 8)
+    (hstr : vars.get "scope::array_join::string".toList = none)
+    (hsize : ∀ l, tget st.coll.tbl a = some (.list l) →
+      (utf8Encode (joinStr sep (l.map Item.render))).length + (utf8Encode sep).length < Calc.two53)
+    (hfuel : 3 * arrLen st.coll.tbl a + 16 ≤ fuel) :
+    runScriptCmdF (depth + 3) fuel "array_join".toList (a :: sep :: rest) vars st =
+      runScriptCmdF (depth + 3) (3 * arrLen st.coll.tbl a + 16) "array_join".toList (a :: sep :: rest) vars st ∧
+    IsAnswer (runScriptCmdF (depth + 3) fuel "array_join".toList (a :: sep :: rest) vars st).1 := by
+  obtain ⟨k, rfl⟩ : ∃ k, fuel = k + 3 * arrLen st.coll.tbl a + 16 := ⟨fuel - (3 * arrLen st.coll.tbl a + 16), by omega⟩
+  obtain ⟨r, hrun, hpost⟩ := aj_call depth a sep rest vars st hfree hfree1 hne hok hsepOK hstale
+    (by rw [aj_keys.1]; exact hc1) (by rw [aj_keys.2.1]; exact hc5) (by rw [aj_keys.2.2.1]; exact hc10)
+    (by rw [aj_keys.2.2.2]; exact hc6) hstr (fun l hl => aj_size sep _ (hsize l hl))
+  have h0 := hrun 0
+  rw [show 0 + 3 * arrLen st.coll.tbl a + 16 = 3 * arrLen st.coll.tbl a + 16 by omega] at h0
+  rw [hrun k, h0]
+  refine ⟨rfl, ?_⟩
+  rw [hpost.res]
+  unfold ajRes
+  cases tget st.coll.tbl a with
+  | none => trivial
+  | some w => cases w <;> trivial
+
 /-- the budget `runScriptCmd` runs with covers arrays of up to 33330 cells -/
 example : 3 * 33330 + 8 ≤ scriptFuel := by decide
+/-- … and maps of up to 16664 entries -/
+example : 6 * 16664 + 16 ≤ scriptFuel := by decide
 
 /-- the budget `runScriptCmd` runs with is above the bound -/
 example : 4 ≤ scriptFuel := by decide
